@@ -22,6 +22,9 @@ pub struct Printer {
     occ: Vec<(F1, String)>,
     occ_seen: std::collections::HashSet<(F1, R)>,
     pub error: Option<String>,
+    /// nodes printed as free constants of the sort (sound abstraction for proving an identity: if the identity holds
+    /// for every value of the abstracted sub-terms it holds for the values they really take)
+    pub abstracted: std::collections::HashSet<R>,
 }
 
 fn pow2_decimal(k: u32) -> String {
@@ -91,6 +94,7 @@ impl Printer {
             occ: Vec::new(),
             occ_seen: Default::default(),
             error: None,
+            abstracted: Default::default(),
         }
     }
 
@@ -123,6 +127,12 @@ impl Printer {
         };
         if let Some(s) = self.memo.get(&r) {
             return s.clone();
+        }
+        if self.abstracted.contains(&r) {
+            let name = format!("a{}", id);
+            self.defs.push_str(&format!("(declare-const {} {})\n", name, self.sort()));
+            self.memo.insert(r, name.clone());
+            return name;
         }
         let node = with(|a| a.node(id));
         let fp = self.theory == Theory::Fp;
